@@ -34,7 +34,12 @@ pub fn output_end(outp: &MuxOutput) -> u64 {
 pub fn execute(sc: &MuxScenario, skip: Option<&[bool]>, st: &mut Stats) -> MuxOutput {
     let sim = Sim::shared(initial_disk(sc));
     sim.borrow_mut().set_transparent(sc.io.chunking, sc.io.intr_ppm, sc.io.io_seed);
+    if let Some(f) = sc.fault {
+        sim.borrow_mut().plan.push(f);
+    }
     let run = run_mux(sc, &sim, skip);
+    // a planned fault that never fired must not fire during the read-back
+    sim.borrow_mut().plan.clear();
     {
         let s = sim.borrow();
         st.case_digest = mix(st.case_digest, s.digest);
@@ -66,13 +71,19 @@ pub fn check_calls(prop: &str, sc: &MuxScenario, run: &MuxRun, out: &mut Vec<Vio
     }
     if !run.results[0].is_ok() {
         if let CallResult::Err(e) = &run.results[0] {
-            out.push(Violation::new(prop, "write_start_failed", format!("err={}", e.short()), e.msg.clone()));
+            if e.variant != "IoError" {
+                out.push(Violation::new(prop, "write_start_failed", format!("err={}", e.short()), e.msg.clone()));
+            }
         }
         return false;
     }
     if let Some(last) = run.results.last() {
         if let CallResult::Err(e) = last {
-            out.push(Violation::new(prop, "write_end_failed", format!("err={}", e.short()), e.msg.clone()));
+            // a write_end that fails because the sink failed is the sink's fault, not a verdict
+            let injected = e.variant == "IoError";
+            if !injected {
+                out.push(Violation::new(prop, "write_end_failed", format!("err={}", e.short()), e.msg.clone()));
+            }
             return false;
         }
     }
@@ -91,6 +102,12 @@ pub fn rejected_mask(run: &MuxRun) -> Option<Vec<bool>> {
 /// "Calls the muxer rejects leave no trace": same history without them gives the same bytes.
 pub fn check_no_trace(prop: &str, sc: &MuxScenario, outp: &MuxOutput, st: &mut Stats, out: &mut Vec<Violation>) {
     let Some(mask) = rejected_mask(&outp.run) else { return };
+    if outp.sim.borrow().last_hard.is_some() {
+        // a sink fault may leave partial bytes inside mdat that no table refers to: "no trace"
+        // is then judged by what reads back (the model excludes the failed call), not bytewise
+        st.inc("probe.rejected_by_sink_fault");
+        return;
+    }
     st.inc("probe.rejected_call_present");
     // a rejected call between two accepted ones
     let acc: Vec<bool> = outp.run.results[1..].iter().map(|r| r.is_ok()).collect();
@@ -203,6 +220,7 @@ pub fn shape_and_probes(m: &IMovie, sc: &MuxScenario, st: &mut Stats) {
     st.probe("probe.transparent_io_faults", sc.io.chunking != Chunking::Full || sc.io.intr_ppm > 0);
     st.probe("probe.sink_starts_at_nonzero_position", sc.start_pos > 0);
     st.probe("probe.sink_holds_older_longer_file", sc.preexisting > 0);
+    st.probe("probe.transient_sink_fault_planned", sc.fault.is_some());
     st.distinct.insert(h);
 }
 
